@@ -1,9 +1,11 @@
 """C19 — purity, determinism, thread safety (DESIGN §5 C19)."""
+import json
 import os
+import random
 import re
 import subprocess
 
-from lib import build
+from lib import build, cli, core
 
 HARNESSES = {"c19_purity": dict(threads=True, cfgs=("san", "tsan"))}
 
@@ -34,7 +36,39 @@ def run(chk):
     n_thr = int((160 if quick else 6000) * chk.scale)
     for cfg in (["san"] if quick else ["san", "plain"]):
         b = chk.build(build.harness, cfg, "c19_purity", threads=True)
-        chk.run_workers(b, ["--mode", "single"], n_single, cfg=cfg, tag="s" + cfg)
+        res = chk.run_workers(b, ["--mode", "single"], n_single, cfg=cfg, tag="s" + cfg)
+        # a sample of the cases again, each in a process of its own: same digest as in the bulk process that had computed other points before
+        keys = sorted(k for k in chk.digests if k[0] == cfg and k[2] is not None and k[2] >= 1)
+        rnd = random.Random(chk.seed * 31 + 7)
+        rnd.shuffle(keys)
+        sample = keys[:int((64 if quick else 1500) * chk.scale) or 1]
+        wargs = {}
+        for w, args, rc, out, err, dt in res:
+            wargs[w] = args
+        def fresh(key):
+            _, w, i = key
+            a = list(wargs[w])
+            o = os.path.join(chk.workdir, "fresh_%s_%d_%d.jsonl" % (cfg, w, i))
+            a[a.index("--out") + 1] = o
+            r = subprocess.run(a + ["--only", str(i)], stdout=subprocess.DEVNULL, stderr=subprocess.DEVNULL, timeout=600, env=dict(os.environ, **core.SAN_ENV))
+            h = None
+            try:
+                for line in open(o):
+                    if '"t":"digest"' in line:
+                        h = json.loads(line)["h"]
+                os.remove(o)
+            except OSError:
+                pass
+            return key, h, r.returncode
+        for key, h, rc in cli.pmap(fresh, sample):
+            if h is None:
+                chk.harness_errors.append("fresh-process run of case %r gave no digest (exit %s)" % (key, rc))
+                continue
+            same = h == chk.digests[key]
+            chk.add_cell("fresh-process|same results as in the bulk process|%s" % cfg, 1, 0 if same else 1)
+            if not same:
+                chk.add_fail("C19:history-dependence:bulk-process-differs-from-fresh-process", "the results of a point computed in a process that evaluated other points before differ from those of a process of its own",
+                             dict(cfg=cfg, worker=key[1], case=key[2], digest_bulk=chk.digests[key], digest_fresh=h, replay_args=wargs[key[1]][1:] + ["--only", str(key[2])]))
     bt = chk.build(build.harness, "tsan", "c19_purity", threads=True)
     errf = os.path.join(chk.workdir, "tsan-stderr")
     nproc = 4 if quick else 4
